@@ -9,10 +9,22 @@ open CamVerif CamVerif.GenApi CamVerif.GenApiSem
 
 variable {F E : Type} (cx : Ctx F E)
 
-/-- `ctlValue` is the value component of `bool_from_id` -/
+/-- the code's `bool_from_id` follows the specification's reading of a controlling node -/
 theorem ctlValue_of_ok {d : Nat} {c : NodeId} {s : S F} {b : Bool}
     (h : R.val (boolFromId cx (execRec cx d) c) s = .ok b) : ctlValue cx d c s = some b := by
-  unfold ctlValue; unfold R.val at h; rw [h]
+  unfold boolFromId at h
+  unfold ctlValue
+  by_cases h1 : isBoolKind cx c = true
+  · simp only [h1, if_true] at h ⊢
+    unfold R.val at h; rw [h]
+  · by_cases h2 : isIntKind cx c = true
+    · simp only [h1, h2, if_true, Bool.false_eq_true, if_false, R.val_bind] at h ⊢
+      obtain ⟨v, hv, h⟩ := Res.bind_eq_ok h
+      unfold R.val at hv; rw [hv]
+      simp only [R.val_pure, Res.ok.injEq] at h
+      subst h
+      by_cases hz : v = 0 <;> simp [hz]
+    · simp [h1, h2] at h
 
 theorem base_implemented_spec {d : Nat} {b : Base} {s : S F} {x : Bool}
     (h : R.val (baseIsImplemented cx (execRec cx d) b) s = .ok x) :
